@@ -1744,6 +1744,10 @@ impl<'a, 'b> InternalDelphiLogicalLineParser<'a, 'b> {
         {
             return;
         }
+        // The `:` of a case arm follows labels, not a declaration, e.g., `Platform: Foo;`
+        if self.get_current_logical_line().line_type == LLT::CaseArm {
+            return;
+        }
 
         let mut line_index = self.get_current_logical_line().tokens.len() - 1;
         if let Some(TT::Op(OK::Semicolon)) = self.get_current_logical_line_token_types().next_back()
